@@ -34,12 +34,33 @@ func ManageCanaryDeployment(client client.Client, daemonset *v1alpha1.ExtendedDa
 	result.UnscheduledNodesDueToResourcesConstraints = manageUnscheduledPodNodes(params.UnscheduledPods)
 
 	// Cleanup Pods
-	err = cleanupPods(client, params.Logger, result.NewStatus, params.PodToCleanUp)
+	err = cleanupPods(client, params.Logger, result.NewStatus, canaryPodsToCleanUp(params))
 	if err != nil {
 		result.Result = requeuePromptly()
 	}
 
 	return result, nil
+}
+
+// canaryPodsToCleanUp restricts the clean-up of the canary replica set to the canary nodes.
+// The other nodes are served by the active replica set, which cleans them up according to its own template.
+func canaryPodsToCleanUp(params *Parameters) []*v1.Pod {
+	var pods []*v1.Pod
+	for _, pod := range params.PodToCleanUp {
+		nodeName, err := podUtils.GetNodeNameFromPod(pod)
+		if err != nil {
+			continue
+		}
+		for _, canaryNodeName := range params.CanaryNodes {
+			if canaryNodeName == nodeName {
+				pods = append(pods, pod)
+
+				break
+			}
+		}
+	}
+
+	return pods
 }
 
 // manageCanaryStatus manages ReplicaSet status in Canary state.
